@@ -16,7 +16,7 @@ func init() {
 		Explanation: "Decides structural clauses of delete correctness: D1 order inside a delete: tombstones committed on every overlapping file (the error of the parallel apply is checked) before the cache range is removed, before the WAL delete entry is written; the index is touched only after the file walk and the cache walk that cross out surviving series; " +
 			"D2 level compactions, series-file compactions and TSI compactions are disabled before the first deleteSeriesRange on every path and re-enabled by a deferred call; enableLevelCompactions restarts compactions only when no delete still holds them; " +
 			"D3 WAL replay handles every WALEntry implementation (deletes are replayed); D4 the inclusive range-overlap predicates equal their specification on every ordering; D5 lock pairing in the delete's closures; " +
-			"D6 FileStore.Apply reports an error if any file's function failed (a nil result never overwrites an error); D7 the reconciliation pass examines every file (no time-range filter) so a series that still has points in a non-overlapping file stays listed; D8 a delete covers every container of not-yet-filed points: Cache.DeleteRange filters the in-flight snapshot too, or the delete path excludes cache snapshots while it runs (neither today: recorded known finding with a demonstration). " +
+			"D6 FileStore.Apply reports an error if any file's function failed (a nil result never overwrites an error); D7 the reconciliation pass examines every file (no time-range filter) so a series that still has points in a non-overlapping file stays listed; D8 a delete covers every container of not-yet-filed points: Cache.DeleteRange filters the in-flight snapshot too, or the delete path excludes cache snapshots while it runs (neither today: recorded known finding with a demonstration); D9 a tag value is listed only after its series were narrowed to the undeleted ones (tsi1 keeps a value after its last series was dropped; fixed in 185e5ef). " +
 			"NOT decided: exactness of Values.Exclude index arithmetic, tombstone file format.",
 		RuleText:    "obligation = (rule, function, site); outcome/marker path exploration; registry agreement of the WAL entry family; exhaustive predicate evaluation; lock balance exploration",
 		Assumptions: commonAssumptions,
@@ -540,6 +540,57 @@ func runC10(c *core.Ctx) {
 			}
 		}
 		c.Check("reconcile-every-file", recon.Name+"/seeks-from-min-key", recon.PosStr(), seek >= 1, "the reconciliation walk must start at the smallest deleted key of each file")
+	})
+
+	c.Clause("D9", func() {
+		// A tag value is listed only for a series that still exists: an index may keep the value after its last
+		// series was dropped (tsi1 does), so every path that adds a value to the answer of
+		// IndexSet.MeasurementTagKeyValuesByExpr first narrows the value's series to the undeleted ones.
+		f := c.Fn("tsdb.IndexSet.MeasurementTagKeyValuesByExpr")
+		info := f.Info()
+		live := evCall(calleeIn(f, "tsdb.FilterUndeletedSeriesIDIterator"))
+		var resObj types.Object
+		for _, e := range f.Graph().Events {
+			if e.Kind != core.EvReturn {
+				continue
+			}
+			if x, _ := f.ResultExpr(e, 0); x != nil {
+				if id, ok := ast.Unparen(x).(*ast.Ident); ok && !isNilExpr(info, x) {
+					resObj = info.ObjectOf(id)
+				}
+			}
+		}
+		c.Need(resObj != nil, "result variable of MeasurementTagKeyValuesByExpr")
+		n := 0
+		for _, e := range f.Graph().Events {
+			if e.Kind != core.EvAssign {
+				continue
+			}
+			as, ok := e.Node.(*ast.AssignStmt)
+			if !ok || len(as.Lhs) != 1 || len(as.Rhs) != 1 {
+				continue
+			}
+			ix, ok := as.Lhs[0].(*ast.IndexExpr)
+			if !ok || !isIdentObj(info, ix.X, resObj) {
+				continue
+			}
+			ce, ok := as.Rhs[0].(*ast.CallExpr)
+			if !ok {
+				continue
+			}
+			if b, ok := core.Callee(info, ce).(*types.Builtin); !ok || b.Name() != "append" {
+				continue
+			}
+			n++
+			target := e
+			paths := f.MustPrecede(live, func(x *core.Event) bool { return x == target })
+			detail := ""
+			if len(paths) > 0 {
+				detail = "a tag value is added to the answer on a path that never narrowed its series to the undeleted ones: a value whose series were all dropped stays listed (the TSI index keeps such values): " + core.PathStr(paths[0])
+			}
+			c.Check("listed-value-has-live-series", fmt.Sprintf("%s/append#%d", f.Name, n), c.P.Pos(e.Pos()), len(paths) == 0, detail)
+		}
+		c.Floor("appends of a tag value to the answer", n, 1)
 	})
 
 	c.Clause("D8", func() {
